@@ -140,3 +140,155 @@
     #[kani::stub(crate::xz::encode_multibyte_integer, crate::xz::verif_kani::encode_mbi_class_stub)]
     fn c02_xz_index_footer_n2_2_3() { xz_index_footer(2, CheckType::Crc32, 2, 3); }
 
+
+    // ---------------------------------------------------------------- block protocol (payload layer by contract)
+    /// C03.xz.unpadded (D9): prepare_next_block records the block start *before* the block header, so that
+    /// finish_current_block's unpadded size = header + compressed data + check (xz-file-format 4.3).
+    #[kani::proof]
+    #[kani::unwind(8)]
+    //@ERR
+    //@PAYLOAD_W
+    fn c03_xz_prepare_block_start() {
+        let mut w = XZWriter::new(vk::Sink::<32>::new(), opts(CheckType::Crc32, 4096)).unwrap();
+        assert!(w.write_stream_header().is_ok());
+        assert!(w.prepare_next_block().is_ok());
+        let after_header = w.compressed_bytes_written.get();
+        assert!(after_header == 12 + 12);                  // 12-byte block header for a lone LZMA2 filter
+        assert!(w.current_block_start_pos == 12);          // = offset of the block header in the stream
+        assert!(w.block_uncompressed_size == 0);
+        core::mem::forget(w);
+    }
+
+    /// C18.xz / C02.xz.acct (inductive step of XZWriter::write): from any state inside a block that already holds
+    /// u <= limit bytes, one write of n bytes (any n <= 9000) leaves every block within the limit, the blocks partition
+    /// the bytes in order (none lost, none duplicated, none empty), one index record per finished block with its byte count.
+    /// block_size = dict_size = 4096; LZMA2 payload by contract.
+    fn xz_write_step(emit: usize, limited: bool) {
+        use crate::vk::{pl_reset, PL_BLOCKS, PL_CUR_IN, PL_N};
+        pl_reset(emit);
+        let mut o = opts(CheckType::None, 4096);
+        if limited { o.block_size = core::num::NonZeroU64::new(100); }   // clamped up to the dictionary size
+        let mut w = XZWriter::new(vk::Sink::<128>::new(), o).unwrap();
+        if limited { assert!(w.options.block_size.unwrap().get() == 4096); }
+        assert!(w.write_stream_header().is_ok());
+        assert!(w.prepare_next_block().is_ok());
+        let u: u64 = vk::any();
+        vk::assume(u >= 1 && u <= 4096);
+        w.block_uncompressed_size = u;
+        w.total_uncompressed_pos = u;
+        unsafe { PL_CUR_IN = u; }
+        static DATA: [u8; 9000] = [0u8; 9000];
+        let n: usize = vk::any();
+        vk::assume(n >= 1 && n <= 9000);
+        let r = w.write(&DATA[..n]);
+        assert!(matches!(r, Ok(k) if k == n));
+        assert!(w.total_uncompressed_pos == u + n as u64);
+        let nfin = unsafe { PL_N };
+        let cur = unsafe { PL_CUR_IN };
+        assert!(w.block_uncompressed_size == cur);
+        assert!(w.index_records.len() == nfin);
+        let mut sum = cur;
+        let mut i = 0;
+        while i < 4 {
+            if i < nfin {
+                let b = unsafe { PL_BLOCKS[i] };
+                assert!(b >= 1);
+                if limited { assert!(b <= 4096); }
+                assert!(w.index_records[i].uncompressed_size == b);
+                assert!(w.index_records[i].unpadded_size == (12 + emit) as u64);   // header + compressed + check(None)
+                sum += b;
+            }
+            i += 1;
+        }
+        assert!(cur >= 1);
+        if limited { assert!(cur <= 4096); } else { assert!(nfin == 0); }
+        assert!(sum == u + n as u64);
+        crate::vcover!(nfin == 2);
+        crate::vcover!(nfin == 0);
+        core::mem::forget(w);
+    }
+    #[kani::proof]
+    #[kani::unwind(7)]
+    //@ERR
+    //@PAYLOAD_W
+    fn c18_xz_write_step_e1_lim() { xz_write_step(1, true); }
+    #[kani::proof]
+    #[kani::unwind(7)]
+    //@ERR
+    //@PAYLOAD_W
+    fn c18_xz_write_step_e4_lim() { xz_write_step(4, true); }
+    #[kani::proof]
+    #[kani::unwind(7)]
+    //@ERR
+    //@PAYLOAD_W
+    fn c18_xz_write_step_e3_unl() { xz_write_step(3, false); }
+
+    /// C02.xz.index / C03.xz.unpadded / D10: whole-stream layout for concrete small histories: write(n) then finish().
+    /// The stream is header | blocks | index | footer; the index (parsed by the real Index::parse) has one record per
+    /// block actually opened - none for empty input - with unpadded = header+compressed+check and the block's byte count.
+    fn xz_finish_layout(n: usize, emit: usize, check: CheckType, kv: usize) {
+        use crate::vk::{pl_reset, PL_BLOCKS, PL_N};
+        pl_reset(emit);
+        let mut o = opts(check, 4096);
+        o.block_size = core::num::NonZeroU64::new(4096);
+        let mut w = XZWriter::new(vk::Sink::<160>::new(), o).unwrap();
+        static DATA: [u8; 9000] = [7u8; 9000];
+        if n > 0 {
+            let r = w.write(&DATA[..n]);
+            assert!(matches!(r, Ok(k) if k == n));
+        }
+        let sink = match w.finish() { Ok(s) => s, Err(_) => { assert!(false); return; } };
+        let nblocks = unsafe { PL_N };
+        assert!(nblocks == (n + 4095) / 4096);
+        let clen = match check { CheckType::None => 0, CheckType::Crc32 => 4, CheckType::Crc64 => 8, CheckType::Sha256 => 32 };
+        let blk = 12 + (emit + 3) / 4 * 4 + clen;
+        let total = sink.len;
+        // footer -> backward size -> index position
+        let f = rd_stream_footer(&sink.buf[total - 12..total]);
+        let (backward, flags) = match f { Ok(x) => x, Err(_) => { assert!(false); return; } };
+        assert!(flags == [0, check as u8]);
+        let index_len = (backward as usize + 1) * 4;
+        let idx_off = total - 12 - index_len;
+        assert!(idx_off == 12 + nblocks * blk);
+        assert!(sink.buf[idx_off] == 0);
+        // index bytes = spec index (xz-file-format 4) for the blocks really written; the reader half of the round trip is
+        // C02.xz.index.r (Index::parse against the same spec function)
+        let mut recs: [(u64, u64); 2] = [(0, 0); 2];
+        let mut i = 0;
+        while i < nblocks && i < 2 { recs[i] = ((12 + emit + clen) as u64, unsafe { PL_BLOCKS[i] }); i += 1; }
+        let mut spec = [0u8; 64];
+        let slen = crate::xz::reader::verif_kani::spec_index(&mut spec, nblocks, &recs, 1, kv);
+        assert!(slen == index_len);
+        let mut j = 0;
+        while j < 16 { if j < index_len { assert!(sink.buf[idx_off + j] == spec[j]); } j += 1; }
+        // first block: header at 12, payload bytes, zero padding to 4
+        if nblocks >= 1 {
+            let mut j = 0;
+            while j < 4 { if j < emit { assert!(sink.buf[24 + j] == 0xAA); } else if j < (emit + 3) / 4 * 4 { assert!(sink.buf[24 + j] == 0); } j += 1; }
+        }
+    }
+    #[kani::proof]
+    #[kani::unwind(18)]
+    //@ERR
+    //@PAYLOAD_W
+    fn c02_xz_finish_empty() { xz_finish_layout(0, 1, CheckType::Crc32, 1); }
+    #[kani::proof]
+    #[kani::unwind(18)]
+    //@ERR
+    //@PAYLOAD_W
+    fn c02_xz_finish_n5() { xz_finish_layout(5, 2, CheckType::Crc32, 1); }
+    #[kani::proof]
+    #[kani::unwind(18)]
+    //@ERR
+    //@PAYLOAD_W
+    fn c02_xz_finish_n4096() { xz_finish_layout(4096, 4, CheckType::None, 2); }
+    #[kani::proof]
+    #[kani::unwind(18)]
+    //@ERR
+    //@PAYLOAD_W
+    fn c02_xz_finish_n4097() { xz_finish_layout(4097, 3, CheckType::None, 2); }
+    #[kani::proof]
+    #[kani::unwind(18)]
+    //@ERR
+    //@PAYLOAD_W
+    fn c02_xz_finish_n8192() { xz_finish_layout(8192, 1, CheckType::None, 2); }
